@@ -483,8 +483,27 @@ pub async fn run_adversary(shared: AdvShared, cfg: ClusterCfg, net: SharedNet, p
         injected: BTreeSet::new(),
     };
     let mut hostile = crate::hostile::Hostile::new(&adv.cfg, &profile);
+    let mut last_window_done = !profile.hostile;
     loop {
         tokio::time::sleep(Duration::from_millis(tick)).await;
+        // hostile profiles: a Byzantine validator that happens to lead the very last window of the slot
+        // range (slots u64::MAX-3 ..= u64::MAX) signs two conflicting blocks for one of its slots there;
+        // the blockstore takes shreds for any slot
+        if !last_window_done && kernel::now_ms() >= 1_500 {
+            last_window_done = true;
+            let top_leader = ((u64::MAX / SLOTS_PER_WINDOW) % n as u64) as usize;
+            if adv.cfg.byz.nodes.contains(&top_leader) {
+                let slot = Slot::new(u64::MAX - kernel::choose(ADV, 4));
+                let kp = keys::keypair(top_leader);
+                let parent = (Slot::new(1), crate::wire::synth_hash(1, 1));
+                let a = wire::simple_block(slot, parent.clone(), 1, 0xFA, &kp.sk);
+                let b = wire::simple_block(slot, parent, 1, 0xFB, &kp.sk);
+                let all = adv.targets_all();
+                adv.send_block(top_leader, &a, &all, 0);
+                adv.send_block(top_leader, &b, &all, 20);
+                kernel::fault("byzantine_leader_equivocates_in_the_last_window");
+            }
+        }
         {
             let mut o = observer.borrow_mut();
             o.step();
